@@ -109,6 +109,16 @@ CLAIMS = {
         "signature must be for the requested hash and level.",
    note="quick: all single deviations + 400 sampled double deviations; thorough: all 1.6e3 behaviours. HTTP (libcurl) transport and the block signer are not bound. The SDK adds the requested level to the reply's first level correction itself (so there is no 'lower level' reply).",
    technique="TLC model checking of the protocol + replay of all TLC behaviours into the real signing calls on scripted sockets"),
+ "C08": dict(level="model_checking", design_ref="DESIGN.md 4/C08",
+   text="SignExtend.tla models extending (signatures with/without calendar chain, publication or authentication record x targets head / equal / later / earlier / "
+        "supplied publication record) with the extender's reply as an 11-attribute vector deviating from the honest reply in at most two attributes; TLC checks "
+        "SuccessOnlyIfValid and exports every behaviour, which is replayed through KSI_Signature_extendTo / KSI_Signature_extend over the real blocking TCP client "
+        "with replies from the independent reference extender (right links taken over from the old chain). Success must coincide with the spec; the result must be "
+        "the source aggregation chains byte-identical + the new calendar chain (+ the supplied publication record) with former records removed; the source "
+        "serialization must not change. HashChain.tla's declarative Compatible(a,b) is compared with KSI_CalendarHashChain_verifyCompatibilityTo on all pairs of "
+        "small chains over a two-value hash alphabet.",
+   note="quick: all single deviations + 300 sampled double deviations, chain pairs with <=2 links; thorough: all 2.6e3 behaviours, <=3 links. Async extending and KSI_extendSignature are C04's. Defect F-C08-1 fixed.",
+   technique="TLC model checking of the protocol + replay of all TLC behaviours into the real extending calls; declarative compatibility relation vs libksi on all small chain pairs"),
 }
 for e in ENGINES:
     e["serves_properties"] = sorted(CLAIMS)
